@@ -9,6 +9,8 @@ S=$1; OUT=$2; RACE=${3:-}
 REPO=${VERIF_REPO:-/repo}
 mkdir -p "$S" || exit 2
 rsync -a --delete --exclude .git --exclude 'go.work*' --exclude examples "$REPO"/ "$S"/ || exit 2
+# the bundled example diagrams (C15 round-trips every bundled .bpmn file); the example programs themselves are not built
+rsync -a --delete --include '*/' --include '*.bpmn' --exclude '*' "$REPO"/examples/ "$S"/zz_examples/ 2>/dev/null
 cd "$S" || exit 2
 sed -i 's/^go 1\.[0-9.]*$/go 1.26/' go.mod || exit 2
 sed -i 's/^go 1\.[0-9.]*$/go 1.26/' schema/go.mod 2>/dev/null
